@@ -130,6 +130,12 @@ export function makeVSlots(b, form) {
     const g = b.global({ k: 'slots', v: { foo: { k: 'slotfn', id: 'vs.foo' }, bar: { k: 'slotfn', id: 'vs.bar' } } }, { log: false });
     return [{ t: 'vslots', i: b.leaf(g), src: `v-slots={${g}}`, form }];
   }
+  if (form === 'objLitWithDefault') {
+    // (only used by C11: which `default` wins next to written children is left open, that every entry's value is evaluated once is not)
+    const f1 = b.fnGlobal({ k: 'slotfn', id: 'vs.header' }), f2 = b.fnGlobal({ k: 'slotfn', id: 'vs.default' }), f3 = b.fnGlobal({ k: 'slotfn', id: 'vs.footer' });
+    const src2 = `{ header: ${f1}(), default: ${f2}(), footer: ${f3}() }`;
+    return [{ t: 'vslots', i: b.leaf(`(${src2})`), src: `v-slots={${src2}}`, form, hasDefault: true }];
+  }
   const f = b.fnGlobal({ k: 'sent' });
   const src = `{ foo: () => [${f}()], bar: () => ["b"] }`;
   return [{ t: 'vslots', i: b.leaf(`(${src})`), src: `v-slots={${src}}`, form }];
